@@ -3,6 +3,7 @@ package c01
 
 import (
 	"fmt"
+	"os"
 	"strings"
 	"time"
 
@@ -14,8 +15,17 @@ const Prop = "C01"
 
 // Plans enumerates the histories: every single template, every ordered pair in two consecutive
 // blocks and in the same block; thorough adds pairs separated by a long gap and all triples.
-func Plans(tier string, n int) []replica.Plan {
+func Plans(tier string, tmpl []replica.Template, n int) []replica.Plan {
 	var out []replica.Plan
+	// governance changes (parameters, switches) followed by a use after they took effect, and the
+	// life-cycle chains
+	for g := n; g < len(tmpl); g++ {
+		out = append(out, replica.Plan{Name: fmt.Sprintf("[%d]", g), Blocks: [][]int{{g}}, Tail: 6})
+		for i := 0; i < n; i++ {
+			out = append(out, replica.Plan{Name: fmt.Sprintf("[%d]...[%d]", g, i), Blocks: [][]int{{g}, {}, {}, {}, {}, {i}}, Tail: 2})
+		}
+	}
+	out = append(out, replica.LifecycleChains(tmpl, n)...)
 	for i := 0; i < n; i++ {
 		out = append(out, replica.Plan{Name: fmt.Sprintf("[%d]", i), Blocks: [][]int{{i}}, Tail: 3})
 	}
@@ -64,7 +74,7 @@ func variants(tier string) []replica.Variant {
 		// every replica combines a map-iteration policy with a shifted wall clock, interleaved
 		// CheckTx/queries and a previously constructed second application object; a divergence is
 		// attributed afterwards by re-running with the sources separated
-		out = append(out, replica.Variant{Name: fmt.Sprintf("map%d+clock+noise+second", k), MapSeed: uint(k), ClockSec: 400 * 86400, Noise: k%2 == 1, Second: k%3 == 0, RestartAt: -1})
+		out = append(out, replica.Variant{Name: fmt.Sprintf("map%d+clock+noise+second", k), MapSeed: uint(k), ClockSec: 400 * 86400, Noise: k%2 == 1, NoiseOld: k%4 == 1, Second: k%3 == 0, RestartAt: -1})
 	}
 	return out
 }
@@ -80,7 +90,7 @@ func attribute(f *replica.Fix, h replica.History, ref replica.Trace, v replica.V
 	}
 	try("map", replica.Variant{MapSeed: v.MapSeed})
 	try("clock", replica.Variant{ClockSec: v.ClockSec})
-	try("noise", replica.Variant{Noise: true})
+	try("noise", replica.Variant{Noise: true, NoiseOld: v.NoiseOld})
 	try("second", replica.Variant{Second: true})
 	if len(causes) == 0 {
 		return "combination"
@@ -91,8 +101,9 @@ func attribute(f *replica.Fix, h replica.History, ref replica.Trace, v replica.V
 func Worker(shard, n int, tier string) *engine.Result {
 	res := engine.NewResult(Prop)
 	f := replica.NewFix()
-	tmpl := replica.Templates()
-	plans := Plans(tier, len(tmpl))
+	base := replica.Templates()
+	tmpl := append(append([]replica.Template{}, base...), replica.GovTemplates()...)
+	plans := Plans(tier, tmpl, len(base))
 	res.Extra["histories"] = len(plans)
 	res.Extra["templates"] = len(tmpl)
 	vs := variants(tier)
@@ -105,8 +116,11 @@ func Worker(shard, n int, tier string) *engine.Result {
 			res.CapHit = true
 			break
 		}
-		h, ref, _ := f.RunReference(p, tmpl)
 		desc := planNames(p, tmpl)
+		if only := os.Getenv("VERIF_ONLY"); only != "" && only != desc {
+			continue
+		}
+		h, ref, _ := f.RunReference(p, tmpl)
 		res.Evaluations++
 		ok := 0
 		for _, st := range ref {
@@ -181,7 +195,7 @@ func firstTemplate(p replica.Plan, t []replica.Template) string {
 func Run(tier string) int {
 	start := time.Now()
 	res := engine.RunSharded(Prop, tier, 16, Worker)
-	tmpl := replica.Templates()
+	tmpl := append(replica.Templates(), replica.GovTemplates()...)
 	var names []string
 	for _, t := range tmpl {
 		names = append(names, t.Name)
@@ -189,10 +203,11 @@ func Run(tier string) int {
 	res.Sample(map[string]any{"history": "{liquidate} {convertERC20} + 2 empty blocks", "variant": "map3+clock+noise+second"})
 	return engine.Finish(res, engine.Meta{
 		Property: Prop, Tier: tier, Level: "model_checking", Start: start, Alphabet: names,
-		Rule: "every history = single template, ordered pair in consecutive blocks, ordered pair in one block (thorough: pairs with a 30-day gap, all triples) over an 18-template alphabet, executed with real InitChain/BeginBlock/DeliverTx/EndBlock/Commit; the recorded concrete blocks are replayed on 7 (thorough 23) independently constructed replicas, each under a forced map-iteration seed combined with a +400d wall clock, interleaved CheckTx/queries and a second application object; every DeliverTx result (code, data, gas, events, log), EndBlock (validator and consensus-param updates, events), BeginBlock events and Commit app hash compared; states = distinct (call, response digest) pairs, non-trivial = history with an executed transaction",
+		Rule: "every history = single template, ordered pair in consecutive blocks, ordered pair in one block (thorough: pairs with a 30-day gap, all triples) over a 21-template alphabet, plus 4 governance flows alone and followed by every template once in effect and 5 life-cycle chains, executed with real InitChain/BeginBlock/DeliverTx/EndBlock/Commit; the recorded concrete blocks are replayed on 7 (thorough 23) independently constructed replicas, each under a forced map-iteration seed combined with a +400d wall clock, interleaved CheckTx/queries (incl. eth_call/estimateGas executing the EVM at the latest and at old heights) and a second application object; every DeliverTx result (code, data, gas, events, log), EndBlock (validator and consensus-param updates, events), BeginBlock events and Commit app hash compared; states = distinct (call, response digest) pairs, non-trivial = history with an executed transaction",
 		Assumptions: []string{
 			"one forced random word for all maps at a time: seeds 0..7 (thorough 0..23) realise every start bucket/offset for maps of <= 8 (<= 16) entries",
 			"validator sets of 2; consensus engine not involved (ABCI level)",
+			"the DeliverTx log is compared up to its first line break (SDK %+v errors append the process call stack)",
 			"on a divergence the sources are separated by re-running the history with one source at a time",
 		},
 	})
